@@ -224,6 +224,25 @@ func (e *Env) Fail(key, what string, cs interface{}, ops []string, observed, exp
 	r.mu.Unlock()
 }
 
+// FailedExcept reports whether a failure with a key other than the given ones was recorded (suites use it to stop
+// early after a failure without letting a recorded, known finding cut the exploration short).
+func (e *Env) FailedExcept(keys ...string) bool {
+	e.Result.mu.Lock()
+	defer e.Result.mu.Unlock()
+	for _, f := range e.Result.Failures {
+		known := false
+		for _, k := range keys {
+			if f.Key == k {
+				known = true
+			}
+		}
+		if !known {
+			return true
+		}
+	}
+	return false
+}
+
 func (e *Env) Failed() bool {
 	e.Result.mu.Lock()
 	defer e.Result.mu.Unlock()
